@@ -5,6 +5,8 @@
 -/
 import IppModel.Lemmas.Refine
 import IppModel.Lemmas.Encode
+import IppModel.Lemmas.DepthLin
+import IppModel.Lemmas.Streams
 namespace Ipp.Props.C02
 open Ipp Ipp.Spec
 
@@ -53,5 +55,40 @@ theorem nest_size (n : Nat) (name : Bytes) : (toksBytes (toksV name (nest n))).l
     rw [toksBytes_append]
     simp only [toksBytes, tokBytes, be16, List.length_cons, List.length_append, List.length_nil, h0]
     omega
+
+/-- The converse bound: on EVERY input the parser accepts (well-formed or not), the nesting depth of every value
+    it returns is at most the number of bytes it consumed – depth is linear in the input, never amplified.
+    Together with `depth_unbounded` / `nest_size` this pins K2 exactly: depth n needs an input of Θ(n) bytes. -/
+theorem depth_linear (bs : Bytes) (h : Header) (gs : List Group) (rest : Bytes)
+    (hp : parseFlat bs = .ok ((h, gs), rest)) :
+    ∀ g ∈ gs, ∀ p ∈ g.attrs, depth p.2 ≤ bs.length - rest.length :=
+  parseFlat_depth_linear bs h gs rest hp
+
+/-- stronger: the SUM of the depths of all returned values, plus the 8 header bytes, fits in the bytes consumed -/
+theorem depth_sum_linear (bs : Bytes) (h : Header) (gs : List Group) (rest : Bytes)
+    (hp : parseFlat bs = .ok ((h, gs), rest)) : sumG gs + 8 + rest.length ≤ bs.length :=
+  parseFlat_depth_sum bs h gs rest hp
+
+/-- …and through the stream readers: however a fault-free source fragments the bytes (short reads, `Interrupted`,
+    not-ready), what the blocking parser returns is no deeper than the bytes it took from the source. -/
+theorem depth_linear_blocking (src : Source) (hf : noFault src = true) (h : Header) (gs : List Group) (rest : Source)
+    (hp : parseSync src = .ok ((h, gs), rest)) :
+    ∀ g ∈ gs, ∀ p ∈ g.attrs, depth p.2 ≤ (Source.flat src).length - (Source.flat rest).length := by
+  have hflat := parseSync_flat src hf
+  rw [hp] at hflat
+  exact parseFlat_depth_linear _ h gs _ hflat.symm
+
+/-- the same for the async parser (no `Interrupted` in the script, which the async reader would return as an error) -/
+theorem depth_linear_async (src : Source) (hf : noFault src = true) (hi : noIntr src = true) (h : Header) (gs : List Group)
+    (rest : Source) (hp : parseAsync src = .ok ((h, gs), rest)) :
+    ∀ g ∈ gs, ∀ p ∈ g.attrs, depth p.2 ≤ (Source.flat src).length - (Source.flat rest).length := by
+  have hflat := parseAsync_flat src hf hi
+  rw [hp] at hflat
+  exact parseFlat_depth_linear _ h gs _ hflat.symm
+
+/-- non-vacuity: the hypothesis is met by the nested messages above, where the bound is within a factor 16 -/
+example : ∃ bs h gs rest, parseFlat bs = .ok ((h, gs), rest) ∧ ∃ g ∈ gs, ∃ p ∈ g.attrs, depth p.2 = 4 := by
+  obtain ⟨bs, g, v, hp, ha, hd⟩ := depth_unbounded 3
+  exact ⟨bs, _, _, _, hp, g, by simp, ([0x63], v), by simp [ha], hd⟩
 
 end Ipp.Props.C02
